@@ -128,7 +128,8 @@ def norm(node_or_text: Any) -> str:
             text = ast.dump(node_or_text)
     else:
         text = str(node_or_text)
-    return re.sub(r"\s+", " ", text).strip()[:200]
+    # full text: rules compare these strings, so nothing may be cut off here (display and finding keys are cut in Report.ob)
+    return re.sub(r"\s+", " ", text).strip()
 
 
 class Loc:
@@ -189,7 +190,7 @@ class Report:
         self.rule_counts[rule] = self.rule_counts.get(rule, 0) + 1
         if ok is not None:
             self.decided_counts[rule] = self.decided_counts.get(rule, 0) + 1
-        ctext = norm(construct)
+        ctext = norm(construct)[:200]
         if nontrivial:
             self.nontrivial.add((rule, loc.file, loc.qual, ctext))
         if ok is True:
